@@ -42,7 +42,7 @@ def make_logical(g, N):
     return v
 
 
-def random_facets(g, template, N, sizes=None, numeric="some", square=None):
+def random_facets(g, template, N, sizes=None, numeric="some", square=None, p_zero=0.2):
     """List of (role, var) for `template`. `sizes`: optional per-position element counts."""
     parts = template.split("|")
     facets = []
@@ -72,7 +72,7 @@ def random_facets(g, template, N, sizes=None, numeric="some", square=None):
         elif p == "logical":
             facets.append(("cat", make_logical(g, N)))
         elif p in CATLIKE:
-            facets.append(("cat", g.cat(N, n_valid=size, kind=p, numeric=numeric)))
+            facets.append(("cat", g.cat(N, n_valid=size, kind=p, numeric=numeric, p_zero=p_zero)))
         else:
             raise ValueError(p)
     return facets
